@@ -65,6 +65,11 @@ impl Op {
 }
 
 fn gen_history(rng: &mut Rng, len: usize, plen: usize) -> Vec<Op> {
+    gen_history_opt(rng, len, plen, false)
+}
+
+/// With `big`, one query in twenty asks for 1000-2600 jobs (far beyond anything cached so far).
+fn gen_history_opt(rng: &mut Rng, len: usize, plen: usize, big: bool) -> Vec<Op> {
     let mut ops = vec![];
     let mut clones: Vec<(bool, usize)> = vec![(true, 0)];
     let mut iters: Vec<usize> = vec![];
@@ -77,6 +82,7 @@ fn gen_history(rng: &mut Rng, len: usize, plen: usize) -> Vec<Op> {
             2 => rng.usize(0, 60),
             _ => 0,
         };
+        let n = if big && rng.chance(1, 20) { rng.usize(1000, 2600) } else { n };
         match rng.range(0, 9) {
             0..=2 => ops.push(Op::Cost { clone: c, n }),
             3 | 4 => ops.push(Op::Least { clone: c, n }),
@@ -280,6 +286,15 @@ impl Monitor for C14 {
         vec!["trace_runs_checked", "consistency_points_checked", "history_operations", "cache_snapshots_checked", "traces_with_worst_run_at_the_end"]
     }
 
+    fn unguarded_library_failure(&self, c: &crate::framework::Caught, rep: &mut CaseReport) -> bool {
+        // this property's objects must answer every query: a library panic / runaway loop that surfaces
+        // outside a guarded call (e.g. while the monitor inspects the shared cache) is a violation too
+        rep.violation(
+            format!("C14 kind=library-{}-outside-a-guarded-call class={}", c.kind, c.class()),
+            crate::jobj! {"caught" => c.to_json(), "case" => rep.sample.clone()},
+        );
+        true
+    }
     fn run_case(&self, _index: u64, seed: u64, _tier: Tier, rep: &mut CaseReport) {
         let mut rng = Rng::new(seed);
         // ------------------------------------------------------------ (A)
@@ -459,7 +474,11 @@ impl Monitor for C14 {
         let plateau_ok = rng.chance(1, 3);
         let prefix = gen_cumulative_opt(&mut rng, 6, 15, plateau_ok);
         let hl = rng.usize(40, 200);
-        let ops = gen_history(&mut rng, hl, prefix.len());
+        let big = _index % 128 == 127;
+        if big {
+            rep.count("histories_with_queries_for_more_than_1000_jobs", 1);
+        }
+        let ops = gen_history_opt(&mut rng, hl, prefix.len(), big);
         let before = rep.counters.get("distinct_cache_lengths_seen").copied().unwrap_or(0);
         let bad = run_history(&prefix, &ops, rep);
         let grew = rep.counters.get("distinct_cache_lengths_seen").copied().unwrap_or(0) - before >= 2;
